@@ -49,7 +49,44 @@ func (s *gsim) byzantine() {
 		s.byzCommit()
 		return
 	}
+	if len(s.advKeys()) > 0 && k.Bool(1, 3, "byz-split") {
+		s.byzSplit()
+		return
+	}
 	s.byzVote()
+}
+
+// byzSplit: the classic attack of a Byzantine voter - validly signed votes for blocks on two
+// different forks, one fork shown to some nodes, the other to the rest, both (an equivocation, in
+// a chosen order) to some.
+func (s *gsim) byzSplit() {
+	k := s.k
+	adv := s.advKeys()
+	a := adv[k.Choose(len(adv), "byz-key")]
+	stage := []gp.Subround{gp.VerifPrevote, gp.VerifPrecommit}[k.Choose(2, "byz-stage")]
+	x, y := s.anyBlock("byz-split-x"), s.anyBlock("byz-split-y")
+	ref := s.pickHonest("byz-round-of")
+	round, setID := ref.svc.VerifRound(), ref.svc.VerifSetID()
+	mk := func(b *cu.RefBlock) []byte {
+		v := gp.Vote{Hash: b.Hash, Number: uint32(b.Number)}
+		return rawOf(&gp.VoteMessage{Round: round, SetID: setID, Message: gp.SignedMessage{Stage: stage, BlockHash: v.Hash, Number: v.Number,
+			Signature: signVote(s.keys[a], stage, v, round, setID), AuthorityID: pkb(s.keys[a])}})
+	}
+	rx, ry := mk(x), mk(y)
+	k.Fault("byzantine-split-vote")
+	k.Event("byz-split", "voter %d stage=%d round=%d %s#%d | %s#%d", a, stage, round, cu.Short(x.Hash), x.Number, cu.Short(y.Hash), y.Number)
+	for _, h := range s.honest() {
+		switch k.Choose(4, "byz-split-show") {
+		case 0:
+			s.pending = append(s.pending, wire{a, h.id, rx, "byz-split"})
+		case 1:
+			s.pending = append(s.pending, wire{a, h.id, ry, "byz-split"})
+		case 2:
+			s.pending = append(s.pending, wire{a, h.id, rx, "byz-split"}, wire{a, h.id, ry, "byz-split"})
+		default:
+			s.pending = append(s.pending, wire{a, h.id, ry, "byz-split"}, wire{a, h.id, rx, "byz-split"})
+		}
+	}
 }
 
 func (s *gsim) byzVote() {
